@@ -459,9 +459,18 @@ def run_case(ctx, case):
                 if arg is None:
                     vec.set_options(None)
                 elif "dict" in arg:
-                    vec.set_options(dict(arg["dict"]))
+                    # option values are handed over as mutable 0-d arrays and overwritten in place right after the call:
+                    # what reaches the sub-environments is the value at set_options() time (seeded change C01-j)
+                    given = {k: np.array(v) for k, v in arg["dict"].items()}
+                    vec.set_options(given)
+                    for a in given.values():
+                        a[...] = -7
                 else:
-                    vec.set_options([dict(d) for d in arg["list"]])
+                    given = [{k: np.array(v) for k, v in d.items()} for d in arg["list"]]
+                    vec.set_options(given)
+                    for d in given:
+                        for a in d.values():
+                            a[...] = -7
                 recs.append({"op": "opts", "arg": arg, "reset_infos": [canon_info(d, kind) for d in vec.reset_infos],
                              "deltas": deltas()})
             elif op[0] == "reset":
